@@ -29,7 +29,12 @@
 (*           "delline" (U's line / the alias line deleted) | "replace"       *)
 (*           (alias replaced by ivy / alias now prepared to V's address) |   *)
 (*           "grant" (the server started without alias, it was added)        *)
-(*   norm    auth_normalize = from_normalize, every documented setting     *)
+(*             "twin"     static, case twins as distinct keys / entries:    *)
+(*                        U -> own address, alias; W -> ivy; V -> own       *)
+(*                        address, cself (family I)                         *)
+(*   norm    from_normalize, every documented setting                      *)
+(*   anorm   auth_normalize: "=" (the same setting as norm) or, in family I,*)
+(*           any documented setting - the two directives are independent    *)
 (*   auth    the authenticated user as the client spelled it, [a, v];      *)
 (*           a = "none": not authenticated                                 *)
 (*   mf      MAIL FROM address [a, v]                                      *)
@@ -71,6 +76,14 @@
 (*         for "ss", final sigma for sigma, a zero-width non-joiner inside.  *)
 (*         IDNA2008 keeps them apart from dv (other domains); transitional   *)
 (*         (IDNA2003) processing would map all three onto dv                 *)
+(*   cself ZOE@example.org, the local part in capitals.  Where the operator's *)
+(*         from_normalize keeps the case of local parts (noop, precis,       *)
+(*         precis_email) and the mapping names zoe@ and ZOE@ with different  *)
+(*         owners (table "twin"), they are two addresses (RFC 5321 local     *)
+(*         parts are case-sensitive); under a folding setting cself is a     *)
+(*         spelling of self (weaker reading).  Likewise the account W is     *)
+(*         named ZOE@example.org: a key of its own in "twin", enumerated     *)
+(*         only where auth_normalize keeps the case of the name.             *)
 (*   null  the null reverse-path MAIL FROM:<> (envelope only): nobody's     *)
 (*         address, nobody is entitled to it                                *)
 (*   pm    "postmaster" without a domain (envelope only): an address like   *)
@@ -85,7 +98,7 @@
 EXTENDS Naturals, Sequences, FiniteSets, TLC, Json
 
 CONSTANTS Devs,      \* enabled deviations
-          Families,  \* which row families to enumerate: subset of {"A" .. "F"}
+          Families,  \* which row families to enumerate: subset of {"A" .. "I"}
           Gen        \* TRUE: print every row
 
 VARIABLE in
@@ -116,6 +129,15 @@ FilePrep(edit) == CASE edit \in {"none", "same", "grant"} -> "self"
                     [] edit = "replace" -> "peer"
                     [] OTHER -> "-"
 
+(* settings that keep the case of a local part / of a user name *)
+KeepCase(n) == n \in {"noop", "precis", "precis_email"}
+AN(r) == IF r.anorm = "=" THEN r.norm ELSE r.anorm     \* auth_normalize of the row
+EntTwin(r) ==
+  CASE r.auth.a = "U" -> {"self", "alias"} \cup (IF KeepCase(r.norm) THEN {} ELSE {"cself"})
+    [] r.auth.a = "W" -> {"ivy"}
+    [] r.auth.a = "V" -> {"peer", "cself"} \cup (IF KeepCase(r.norm) THEN {} ELSE {"self"})
+    [] OTHER -> {}
+
 Ent(tbl, u, edit) ==
   IF u = "U" THEN CASE tbl = "identity" -> {"self"}
                     [] tbl = "list"     -> {"self", "alias", "ivy", "dv"}
@@ -135,7 +157,7 @@ Ent(tbl, u, edit) ==
 (* the operator's "casefold" setting is strings.ToLower, which makes U+0130 an i *)
 Canon(r, it) == IF it.a = "ivyd" /\ r.norm = "casefold" THEN [it EXCEPT !.a = "ivy"] ELSE it
 
-Entitled(r, it) == Canon(r, it).a \in Ent(r.tbl, r.auth.a, r.edit)
+Entitled(r, it) == Canon(r, it).a \in (IF r.tbl = "twin" THEN EntTwin(r) ELSE Ent(r.tbl, r.auth.a, r.edit))
 
 FromFields(f) ==
   CASE f.layout = "none"   -> <<>>
@@ -189,16 +211,23 @@ DC(norm, v) ==
 MainDomain(a) == a \in {"self", "alias", "peer", "ivy", "ivyd"} \/ a = "dv"   \* the two domains of the wildcard entry
 Own(u) == IF u = "U" THEN "self" ELSE "peer"
 
+(* table "twin" (canonical spellings only): what a setting makes of the string of a mailbox /
+   of a user name, and what the static table returns for a key *)
+SId(n, a) == IF a = "cself" /\ ~KeepCase(n) THEN "self" ELSE IF a = "ivyd" /\ n = "casefold" THEN "ivy" ELSE a
+UName(u) == CASE u = "U" -> "self" [] u = "W" -> "cself" [] u = "V" -> "peer" [] OTHER -> "-"
+TwinList(k) == CASE k = "self" -> {"self", "alias"} [] k = "cself" -> {"ivy"} [] k = "peer" -> {"peer", "cself"} [] OTHER -> {}
+
 (* does the (normalised) address match what the table returns for the (normalised) user? *)
 Match(r, it00) ==
-  LET n  == r.norm
+  LET n  == r.norm                 \* from_normalize: applied to the address
+      an == AN(r)                  \* auth_normalize: applied to the user name
       it0 == Canon(r, it00)
       \* prepare_email: static alias -> own address of U, keyed by the canonical spelling
       prep == IF r.tbl = "prepare" THEN "self" ELSE IF r.tbl = "fileprep" THEN FilePrep(r.edit) ELSE "-"
       it == IF prep # "-" /\ it0.a = "alias" /\ NC(n, it0.v) = NC(n, "plain") THEN P(prep) ELSE it0
-      found == r.auth.a = "U" /\ NC(n, r.auth.v) = NC(n, "plain")      \* static tables are keyed by "U" canonical
-      foundV == r.auth.a = "V" /\ NC(n, r.auth.v) = NC(n, "plain")
-      ident == it.a = Own(r.auth.a) /\ NC(n, it.v) = NC(n, r.auth.v)   \* the entry is the normalised user name
+      found == r.auth.a = "U" /\ NC(an, r.auth.v) = NC(an, "plain")      \* static tables are keyed by "U" canonical
+      foundV == r.auth.a = "V" /\ NC(an, r.auth.v) = NC(an, "plain")
+      ident == it.a = Own(r.auth.a) /\ NC(n, it.v) = NC(an, r.auth.v)  \* the entry is the normalised user name
       inList(S) == it.a \in S /\ NC(n, it.v) = NC(n, "plain")
   IN IF it0.a = "null" THEN FALSE          \* "" cannot be split into mailbox and domain: refused
      ELSE IF it0.a = "pm"
@@ -207,6 +236,7 @@ Match(r, it00) ==
      THEN r.tbl = "star" /\ found /\ n \in {"precis_casefold", "precis", "casefold", "noop"}
      ELSE
      CASE r.tbl \in {"identity", "prepare", "fileprep"} -> ident
+       [] r.tbl = "twin"   -> SId(n, it0.a) \in TwinList(SId(an, UName(r.auth.a)))
        [] r.tbl = "list"   -> found /\ inList({"self", "alias", "ivy", "dv"})
        [] r.tbl = "file"   -> IF r.auth.a = "U" THEN found /\ inList(FileList(r.edit)) ELSE foundV /\ inList({"peer"})
        [] r.tbl = "chain_req" -> found /\ inList({"self", "alias"})
@@ -262,7 +292,7 @@ RowsA ==
     from : FromNone \cup FromOne(Plain(Addrs), Styles) \cup FromMulti({"two", "fields", "group", "fields_xy", "fields_yx", "fields_g", "fields3"}, X3)
            \cup FromGroup1(X3),
     sender : {NoItem} \cup X3,
-    chk : {TRUE}, sasl : {Sasl0}, nb : {"absent"}, act : {"default"}, edit : {"none"}, fam : {"A"} ]
+    chk : {TRUE}, sasl : {Sasl0}, nb : {"absent"}, act : {"default"}, edit : {"none"}, anorm : {"="}, fam : {"A"} ]
 
 (* family B: spellings against normalisation settings *)
 RowsB ==
@@ -272,7 +302,7 @@ RowsB ==
     mf : XV,
     from : FromOne(XV, {"angle"}),
     sender : {NoItem, Item("self", "upper"), Item("self", "idn"), Item("foreign", "upper")},
-    chk : {TRUE}, sasl : {Sasl0}, nb : {"absent"}, act : {"default"}, edit : {"none"}, fam : {"B"} ]
+    chk : {TRUE}, sasl : {Sasl0}, nb : {"absent"}, act : {"default"}, edit : {"none"}, anorm : {"="}, fam : {"B"} ]
 
 (* family C: the session around the check - null / postmaster envelope senders, envelope-only
    mode, how the session was authenticated (mechanism, authorization identity), and a
@@ -286,7 +316,7 @@ RowsC ==
     chk : BOOLEAN,
     sasl : {Sasl0, [mech |-> "PLAIN", az |-> "same"], [mech |-> "PLAIN", az |-> "other"],
             [mech |-> "LOGIN", az |-> "empty"]},
-    nb : {"absent", "none", "quarantine", "reject"}, act : {"default"}, edit : {"none"}, fam : {"C"} ]
+    nb : {"absent", "none", "quarantine", "reject"}, act : {"default"}, edit : {"none"}, anorm : {"="}, fam : {"C"} ]
 
 (* family D: the action directives, plain and with a custom SMTP reply *)
 RowsD ==
@@ -296,7 +326,7 @@ RowsD ==
     from : FromNone \cup FromOne(Plain({"self", "foreign"}), {"angle"}),
     sender : {NoItem, P("self")},
     chk : BOOLEAN, sasl : {Sasl0}, nb : {"absent", "quarantine"},
-    act : {"reject", "quarantine", "custom_reject", "custom_quarantine"}, edit : {"none"}, fam : {"D"} ]
+    act : {"reject", "quarantine", "custom_reject", "custom_quarantine"}, edit : {"none"}, anorm : {"="}, fam : {"D"} ]
 
 (* family E: an entitled envelope sender followed, in the same message, by a mailbox
    that only strings.ToLower confuses with it, under every normalisation setting *)
@@ -306,7 +336,7 @@ RowsE ==
     mf : {P("ivy"), Item("ivy", "upper"), P("self")},
     from : FromOne({P("ivyd"), Item("ivyd", "upper"), P("ivy"), P("foreign")}, {"angle"}),
     sender : {NoItem, P("ivyd"), P("ivy")},
-    chk : {TRUE}, sasl : {Sasl0}, nb : {"absent"}, act : {"default"}, edit : {"none"}, fam : {"E"} ]
+    chk : {TRUE}, sasl : {Sasl0}, nb : {"absent"}, act : {"default"}, edit : {"none"}, anorm : {"="}, fam : {"E"} ]
 
 (* family F: user_to_email built with table.chain (required and optional steps) *)
 RowsF ==
@@ -316,7 +346,7 @@ RowsF ==
     mf : X4,
     from : FromNone \cup FromOne(X4, {"angle"}),
     sender : {NoItem},
-    chk : {TRUE}, sasl : {Sasl0}, nb : {"absent"}, act : {"default"}, edit : {"none"}, fam : {"F"} ]
+    chk : {TRUE}, sasl : {Sasl0}, nb : {"absent"}, act : {"default"}, edit : {"none"}, anorm : {"="}, fam : {"F"} ]
 
 (* family G: addresses that differ from an entitled one by an IDNA deviation character only
    (envelope sender, From, Sender), under every normalisation setting *)
@@ -327,7 +357,7 @@ RowsG ==
     mf : TW \cup {P("dv"), P("self")},
     from : FromOne(TW \cup {P("dv")}, {"angle"}),
     sender : {NoItem, P("dvss")},
-    chk : {TRUE}, sasl : {Sasl0}, nb : {"absent"}, act : {"default"}, edit : {"none"}, fam : {"G"} ]
+    chk : {TRUE}, sasl : {Sasl0}, nb : {"absent"}, act : {"default"}, edit : {"none"}, anorm : {"="}, fam : {"G"} ]
 
 (* family H: the mapping lives in a table.file that is edited and reloaded while the server
    runs; the message is judged against the file as last reloaded *)
@@ -337,9 +367,28 @@ RowsH ==
     mf : Plain({"self", "alias", "ivy", "peer"}),
     from : FromOne(Plain({"self", "alias", "ivy"}), {"angle"}),
     sender : {NoItem},
-    chk : {TRUE}, sasl : {Sasl0}, nb : {"absent"}, act : {"default"}, edit : FileEdits, fam : {"H"} ]
+    chk : {TRUE}, sasl : {Sasl0}, nb : {"absent"}, act : {"default"}, edit : FileEdits, anorm : {"="}, fam : {"H"} ]
 
-Rows == (IF "G" \in Families THEN RowsG ELSE {}) \cup (IF "H" \in Families THEN RowsH ELSE {}) \cup
+(* family I: auth_normalize and from_normalize set independently (every pair of settings), with
+   what tells the two functions apart: a mapping with case twins as distinct accounts / distinct
+   addresses, and the mailbox only strings.ToLower confuses with an entitled one *)
+RowsI ==
+  { r \in [ tbl : {"twin"}, norm : Norms, anorm : Norms,
+            auth : {Item("U", "plain"), Item("W", "plain"), Item("V", "plain")},
+            mf : Plain({"self", "cself", "ivy", "ivyd", "peer"}),
+            from : FromOne(Plain({"self", "cself", "ivy"}), {"angle"}),
+            sender : {NoItem},
+            chk : {TRUE}, sasl : {Sasl0}, nb : {"absent"}, act : {"default"}, edit : {"none"}, fam : {"I"} ]
+      : r.auth.a = "W" => KeepCase(r.anorm) }
+  \cup
+  [ tbl : {"list", "domain"}, norm : Norms, anorm : Norms,
+    auth : {Item("U", "plain")},
+    mf : Plain({"self", "ivy", "ivyd"}),
+    from : FromOne(Plain({"self", "ivyd"}), {"angle"}),
+    sender : {NoItem, P("ivyd")},
+    chk : {TRUE}, sasl : {Sasl0}, nb : {"absent"}, act : {"default"}, edit : {"none"}, fam : {"I"} ]
+
+Rows == (IF "I" \in Families THEN RowsI ELSE {}) \cup (IF "G" \in Families THEN RowsG ELSE {}) \cup (IF "H" \in Families THEN RowsH ELSE {}) \cup
         (IF "A" \in Families THEN RowsA ELSE {}) \cup (IF "B" \in Families THEN RowsB ELSE {})
         \cup (IF "C" \in Families THEN RowsC ELSE {}) \cup (IF "D" \in Families THEN RowsD ELSE {})
         \cup (IF "E" \in Families THEN RowsE ELSE {}) \cup (IF "F" \in Families THEN RowsF ELSE {})
